@@ -23,8 +23,12 @@ ASTs        B and|or <n> … | 1 not|usub|uadd|invert <a> | 2 bitand|bitor|x:<Ty
   tree <spelling>                ->  `ok <obj>` (the hand-built tree) | `none`
   qeq <obj> <obj>                ->  `true|false`  [## structEq, when both are Not-free trees]
   subst <names> <obj>            ->  `ok <obj>` | `err <Class>`   [## V.subst, for a value]
+  rt <spelling>                  ->  `same eq=<0|1>` (walk of its AST against the hand-built tree, and `==`
+                                     of the two) | `differ …` | `err <Class>` | `none`
   exec <names> <k> (E <ast> | S <Type>){k}
                                  ->  `err <Class>` | per leaf of the parsed query `ok <leaf>`/`err <Class>`, joined by ` ; `
+                                     ## the same with names substituted at any depth also in range bounds
+  resolve <names> <k> (…){k}     ->  `ok <obj>`: the parsed query with every leaf resolved | `err <Class>`
   names = nonames | <k> (<hex> <obj>){k}
 -/
 namespace Driver.CqeS
@@ -459,6 +463,34 @@ def showRes : Except Err W → String
 structure St where
   cat : List String := []
 
+/-- a range leaf with the names in its bounds substituted at any depth (what the property asks) -/
+def resolveLeafDeep (names : Names) : W → Except Err W
+  | .range n i s e sx ex => do
+    let s' ← getValue names s
+    let e' ← getValue names e
+    pure (.range n i s' e' sx ex)
+  | w => resolveLeaf names w
+
+mutual
+def resolveAll (names : Names) : W → Except Err W
+  | .and qs => do
+    let l ← resolveList names qs
+    pure (.and l)
+  | .or qs => do
+    let l ← resolveList names qs
+    pure (.or l)
+  | .not q => do
+    let q' ← resolveAll names q
+    pure (.not q')
+  | w => resolveLeaf names w
+def resolveList (names : Names) : List W → Except Err (List W)
+  | [] => .ok []
+  | q :: qs => do
+    let q' ← resolveAll names q
+    let qs' ← resolveList names qs
+    pure (q' :: qs')
+end
+
 def sigma (names : Names) (n : String) : Option W :=
   match names with
   | some m => m.lookup n
@@ -523,10 +555,35 @@ def step (st : St) (toks : List String) : St × String :=
         match parse st.cat body with
         | .error e => (st, showErr e)
         | .ok w =>
-          if w.isQuery then (st, " ; ".intercalate ((leaves w).map (fun l => showRes (resolveLeaf names l))))
+          if w.isQuery then
+            let m := " ; ".intercalate ((leaves w).map (fun l => showRes (resolveLeaf names l)))
+            match names with
+            | some _ => (st, m ++ " ## " ++ " ; ".intercalate ((leaves w).map (fun l => showRes (resolveLeafDeep names l))))
+            | none => (st, m)
           else (st, "notquery")
       | _ => (st, "bad-op")
     | none => (st, "bad-op")
+  | "resolve" :: rest =>
+    match pNames fuel rest with
+    | some (names, r) =>
+      match pModule r with
+      | some (body, []) =>
+        match parse st.cat body with
+        | .error e => (st, showErr e)
+        | .ok w => if w.isQuery then (st, showRes (resolveAll names w)) else (st, "notquery")
+      | _ => (st, "bad-op")
+    | none => (st, "bad-op")
+  | "rt" :: rest =>
+    match pSx fuel rest with
+    | some (s, []) =>
+      match s.tree with
+      | none => (st, "none")
+      | some q =>
+        match parse st.cat [.expr s.toAst] with
+        | .error e => (st, showErr e)
+        | .ok w =>
+          (st, (if showW w == showW (embed q) then "same" else "differ " ++ showW w) ++ " eq=" ++ b01 (weq w (embed q)))
+    | _ => (st, "bad-op")
   | _ => (st, "bad-op")
 
 def sess : Sess := { σ := St, st := {}, step := step }
